@@ -880,6 +880,8 @@ func run(c *fw.Ctx) {
 		}
 	}
 	localHeadPart(c, lh)
+	// proposer (casting, harness clock) vs verifier on every list of the mixed alphabet
+	castPart(c, ins)
 }
 
 func replay(c *fw.Ctx, raw json.RawMessage) {
@@ -888,6 +890,11 @@ func replay(c *fw.Ctx, raw json.RawMessage) {
 		panic(err)
 	}
 	setup()
+	var cc castCase
+	if json.Unmarshal(raw, &cc) == nil && cc.Cast {
+		castOne(c, cc.Input, cc.Step)
+		return
+	}
 	if cs.Field != "" {
 		fv := reflect.ValueOf(&common.LocalChainConfig).Elem().FieldByName(cs.Field)
 		fv.SetUint(50)
